@@ -937,7 +937,7 @@ func ConcatAll[T any]() func(Observable[Observable[T]]) Observable[T] {
 // Play: https://go.dev/play/p/vS_gIw8Ce1C
 func StartWith[T any](prefixes ...T) func(Observable[T]) Observable[T] {
 	return func(source Observable[T]) Observable[T] {
-		return NewUnsafeObservableWithContext(func(subscriberCtx context.Context, destination Observer[T]) Teardown {
+		return NewObservableWithContext(func(subscriberCtx context.Context, destination Observer[T]) Teardown {
 			for i := range prefixes {
 				destination.NextWithContext(subscriberCtx, prefixes[i])
 			}
